@@ -618,6 +618,15 @@ impl<K, V, S> Inner<K, V, S> {
         self.valid_after.set_instant(timestamp);
     }
 //@@ END
+    /// `self.build_hasher.hash_one(key)` (std): ASSUMED a function of the key
+    pub uninterp spec fn sp_hash<Q: ?Sized>(&self, key: &Q) -> u64;
+//@@ SIG file=src/sync/base_cache.rs owner=Inner name=hash
+    #[verifier::external_body]
+    pub fn hash<Q>(&self, key: &Q) -> (r: u64)
+    where Arc<K>: Borrow<Q>, Q: Hash + Eq + ?Sized
+        ensures r == self.sp_hash(key)
+    { unimplemented!() }
+//@@ END
 //@@ SIG file=src/sync/base_cache.rs owner=Inner name=current_time_from_expiration_clock
     #[verifier::external_body]
     pub fn current_time_from_expiration_clock(&self) -> (r: Instant) ensures r == self.sp_now() { unimplemented!() }
@@ -756,13 +765,16 @@ impl<K, V, S> InnerSync for Inner<K, V, S> {
 
 impl<K, V, S> BaseCache<K, V, S> {
     // ---- assumed: hasher, the map update of an insert (closures capturing `&mut`: rejected by Verus), the housekeeper hook ----
-    pub uninterp spec fn sp_hash<Q: ?Sized>(&self, key: &Q) -> u64;
-//@@ SIG file=src/sync/base_cache.rs owner=BaseCache name=hash
-    #[verifier::external_body]
-    pub(crate) fn hash<Q>(&self, key: &Q) -> (r: u64)
-    where Arc<K>: Borrow<Q>, Q: Hash + Eq + ?Sized
-        ensures r == self.sp_hash(key)
-    { unimplemented!() }
+    pub open spec fn sp_hash<Q: ?Sized>(&self, key: &Q) -> u64 { self.inner.sp_hash(key) }
+//@@ FN file=src/sync/base_cache.rs owner=BaseCache name=hash tags=C14
+    pub(crate) fn hash<Q>(&self, key: &Q) -> /*@+*/(r:/*@-*/ u64/*@+*/)/*@-*/
+    where
+        Arc<K>: Borrow<Q>,
+        Q: Hash + Eq + ?Sized,
+        ensures r == self.sp_hash(key) //@ [C14]
+    {
+        self.inner.hash(key)
+    }
 //@@ END
     /// ASSUMED (DashMap entry API with two closures that capture `&mut`): writes the map and returns the write record for the
     /// maintenance queue: an `Upsert` for this key and hash carrying the new value, and this call's clock reading
@@ -807,9 +819,12 @@ impl<K, V, S> BaseCache<K, V, S> {
         }
     }
 //@@ END
-//@@ SIG file=src/sync/base_cache.rs owner=BaseCache name=current_time_from_expiration_clock
-    #[verifier::external_body]
-    pub(crate) fn current_time_from_expiration_clock(&self) -> (r: Instant) ensures r == self.inner.sp_now() { unimplemented!() }
+//@@ FN file=src/sync/base_cache.rs owner=BaseCache name=current_time_from_expiration_clock tags=C05,C06
+    pub(crate) fn current_time_from_expiration_clock(&self) -> /*@+*/(r:/*@-*/ Instant/*@+*/)/*@-*/
+        ensures r == self.inner.sp_now() //@ [C05,C06,C07]
+    {
+        self.inner.current_time_from_expiration_clock()
+    }
 //@@ END
 
 //@@ FN file=src/sync/base_cache.rs owner=BaseCache name=new_value_entry tags=C01,C05,C06,C10
